@@ -4,7 +4,8 @@ import json, os, shutil, subprocess, sys
 prop, i, needs = sys.argv[1], sys.argv[2], sys.argv[3]
 caught = sys.argv[4:]
 src = f"/tmp/wt/{prop}/_mutation"
-dst = f"/verif/seeded/{prop}-m{i}"
+j = int(i) + int(os.environ.get("MUT_OFFSET", "0"))
+dst = f"/verif/seeded/{prop}-m{j}"
 os.makedirs(dst, exist_ok=True)
 shutil.copy(f"{src}/patch{i}.diff", f"{dst}/patch.diff")
 shutil.copy(f"{src}/demo{i}.rs", f"{dst}/demo.rs")
@@ -19,7 +20,7 @@ meta = {
     "files_changed": [l.strip() for l in stat[:-1]],
     "needs_to_manifest": needs,
     "confirmed": "in the scratch worktree: the unedited workspace test suite passes with the patch (2186 passed, 0 failed); the demonstration (demo.rs) exits 0 on the clean tree and non-zero with the patch",
-    "ran": [f"lib/verify_mutant.sh /tmp/wt/{prop} {i}", f"lib/try_mutant.sh seeded/{prop}-m{i}/patch.diff " + " ".join(c.split(":")[0] for c in caught)],
+    "ran": [f"lib/verify_mutant.sh /tmp/wt/{prop} {i}", f"lib/try_mutant.sh seeded/{prop}-m{j}/patch.diff " + " ".join(c.split(":")[0] for c in caught)],
     "detected_by": caught,
 }
 json.dump(meta, open(f"{dst}/meta.json", "w"), indent=1)
